@@ -129,3 +129,33 @@ Definition doc_disk_kind (name_upper ext_upper ext_with_option : list Z) : list 
   else if zeqb_list ext_with_option [84;88;84] then (ext_upper, 3, 255)
   else (ext_upper, 1, 0).
 Definition pad_to (n : nat) (s : list Z) : list Z := firstn n (s ++ repeat 32 n).
+
+(* ---- further notions used by the theorems ---- *)
+(* every catalogue slot that is not never-used (first byte FF) points inside the table: true of
+   images written by Thomson DOS, where a deleted entry keeps its former record *)
+Definition slots_in_table (sd : dside) : bool :=
+  forallb (fun e => (nth 0 e 255 =? 255) || ((0 <=? e_first e) && (e_first e <? 160))) (cat_entries sd).
+Definition tool_readable (sd : dside) : bool := fsck_read sd && slots_in_table sd.
+Definition printable_char (c : Z) : bool := (32 <=? c) && (c <=? 126).
+Definition names_printable (sd : dside) : bool :=
+  forallb (fun e => negb (e_live e) || forallb printable_char (firstn 11 e)) (cat_entries sd).
+
+(* blocks a content of n bytes occupies: 255 bytes per sector, 8 sectors per block, at least one *)
+Definition needed_sectors (n : Z) : Z := if n =? 0 then 1 else (n + 254) / 255.
+Definition needed_blocks (n : Z) : Z := (needed_sectors n + 7) / 8.
+
+(* .sd <-> .fd *)
+Definition payloads_of (raw : list Z) : list Z := flat_map (firstn 256) (chunk 512 (S (length raw)) raw).
+Definition normalise_padding (raw : list Z) : list Z :=
+  flat_map (fun slot => firstn 256 slot ++ repeat 255 256) (chunk 512 (S (length raw)) raw).
+
+(* an order-preserving interleaving of two lists *)
+Inductive interleave {A} : list A -> list A -> list A -> Prop :=
+| il_nil : interleave [] [] []
+| il_left : forall x a b m, interleave a b m -> interleave (x :: a) b (x :: m)
+| il_right : forall x a b m, interleave a b m -> interleave a (x :: b) (x :: m).
+
+(* what a file stored by the tools must look like in the catalogue *)
+Definition stored_file (name ext : list Z) (kind : Z) (ascii : bool) (content : list Z) (blocks : list Z) : dos_file :=
+  mkDos (pad_to 8 (upper_ascii name)) (pad_to 3 (upper_ascii ext)) kind (if ascii then 255 else 0) blocks content.
+Definition dos_view (f : dos_file) : list Z * list Z * Z * Z * list Z := (d_name f, d_ext f, d_kind f, d_flag f, d_content f).
